@@ -501,7 +501,7 @@ func parseInt(s string, base int) (Value, error) {
 	for ; i < len(s); i++ {
 		if n >= cutoff {
 			// n*base overflows
-			return parseLargeInt(float64(n), s[i:], base, sign)
+			return parseLargeInt(s, base, sign)
 		}
 		v := digitVal(s[i])
 		if v >= base {
@@ -512,7 +512,7 @@ func parseInt(s string, base int) (Value, error) {
 		n1 := n + int64(v)
 		if n1 < n || n1 > maxVal {
 			// n+v overflows
-			return parseLargeInt(float64(n)+float64(v), s[i+1:], base, sign)
+			return parseLargeInt(s, base, sign)
 		}
 		n = n1
 	}
@@ -534,16 +534,14 @@ Error:
 	return _NaN, err
 }
 
-func parseLargeInt(n float64, s string, base int, sign bool) (Value, error) {
+// parseLargeInt converts the leading digits of s, whose value is beyond int64, to the nearest float64.
+// The exact integer is rounded once: accumulating n*base+digit in float64 would round at every digit.
+func parseLargeInt(s string, base int, sign bool) (Value, error) {
 	i := 0
-	b := float64(base)
-	for ; i < len(s); i++ {
-		v := digitVal(s[i])
-		if v >= base {
-			break
-		}
-		n = n*b + float64(v)
+	for i < len(s) && digitVal(s[i]) < base {
+		i++
 	}
+	n, _ := digitsToFloat(s[:i], base)
 	if sign {
 		n = -n
 	}
